@@ -471,18 +471,38 @@ pub fn run_check(def: &PropDef, tier: Tier, seed: u64, max_items: Option<u64>) -
             }
             continue;
         }
+        // The replay file must reproduce the violation in a fresh process. The one source of
+        // nondeterminism that is not seamed (HashMap RandomState inside the code under test) can
+        // make a violation depend on the process; so the minimised file gets three attempts, then
+        // the unminimised scenario gets three. Only a file that reproduced is reported.
         let p = write_replay(&root, def.id, &msc, &mv, "min");
-        match fresh_process_replay(def.id, &p) {
-            Some(found) if found.iter().any(|(c, _)| *c == mv.clause) => {
-                println!("  minimised to {} script steps; replay verified in a fresh process", msc.script.len());
+        let mut verified: Option<(std::path::PathBuf, usize, usize, &str)> = None;
+        let mut last = None;
+        'attempts: for (path, steps, what) in [(p.clone(), msc.script.len(), "minimised"), (write_replay(&root, def.id, &sc, &v, "orig"), sc.script.len(), "unminimised")] {
+            let clause = if what == "minimised" { &mv.clause } else { &v.clause };
+            for attempt in 1..=3 {
+                let r = fresh_process_replay(def.id, &path);
+                if matches!(&r, Some(found) if found.iter().any(|(c, _)| c == clause)) {
+                    verified = Some((path.clone(), steps, attempt, what));
+                    break 'attempts;
+                }
+                last = r;
+            }
+        }
+        match verified {
+            Some((path, steps, attempt, what)) => {
+                println!(
+                    "  {what} scenario of {steps} script steps; replay verified in a fresh process{}",
+                    if attempt > 1 || what != "minimised" { format!(" (attempt {attempt}; the violation depends on something the seed does not fix, most likely HashMap order in the code under test)") } else { String::new() }
+                );
                 println!("  {} :: {}", mv.clause, mv.detail);
-                violation_lines.push(format!("VIOLATION property={} replay={}", def.id, p.display()));
+                violation_lines.push(format!("VIOLATION property={} replay={}", def.id, path.display()));
                 exit_code = 1;
                 reported += 1;
             }
-            other => {
+            None => {
                 println!(
-                    "HARNESS-ERROR: violation {} does not reproduce from its replay file {} in a fresh process ({other:?})",
+                    "HARNESS-ERROR: violation {} does not reproduce from its replay file {} in a fresh process ({last:?})",
                     mv.clause,
                     p.display()
                 );
